@@ -542,6 +542,47 @@ func memberStopsUnits(u nextroute.SolutionPlanUnit) []nextroute.SolutionPlanStop
 	return nil
 }
 
+// plannedStates: per root plan unit (role, planned flag, number of member stops-units on routes).
+func plannedStates(s nextroute.Solution) map[int]string {
+	out := map[int]string{}
+	for _, mu := range s.Model().PlanUnits() {
+		if _, member := mu.PlanUnitsUnit(); member {
+			continue
+		}
+		su := s.SolutionPlanUnit(mu)
+		if su == nil {
+			continue
+		}
+		n := 0
+		for _, m := range memberStopsUnits(su) {
+			if m.IsPlanned() {
+				n++
+			}
+		}
+		out[mu.Index()] = fmt.Sprintf("%s/%v/%d", unitRole(su), su.IsPlanned(), n)
+	}
+	return out
+}
+
+// plannedStateDiff: the roles of the root units whose planned state differs ("none": only values differ).
+func plannedStateDiff(a, b map[int]string) string {
+	roles := map[string]bool{}
+	for k, v := range a {
+		if b[k] != v {
+			roles[strings.SplitN(v, "/", 2)[0]] = true
+		}
+	}
+	if len(roles) == 0 {
+		return "none"
+	}
+	var l []string
+	for r := range roles {
+		l = append(l, r)
+	}
+	sort.Strings(l)
+	return strings.Join(l, "+")
+}
+
 func unitRole(u nextroute.SolutionPlanUnit) string {
 	kind := "stops"
 	if uu, ok := u.(nextroute.SolutionPlanUnitsUnit); ok {
@@ -592,6 +633,11 @@ func runHist(o *Out, thorough bool, withUC bool) {
 			p.Tight = true
 			p.Capacity, p.Limits = true, true
 		}
+		if ci%6 == 3 && !waitBias {
+			// mixing items everywhere: the no-mix estimate has to reason about what other units carry between positions
+			p = Profile{MaxStops: 6 + rng.Intn(5), MaxVehicles: 1 + rng.Intn(2), ForceMix: true, Precedence: rng.Intn(2) == 0,
+				NonMetric: true, Capacity: rng.Intn(3) == 0}
+		}
 		if waitBias {
 			p = Profile{MaxStops: 4 + rng.Intn(5), MaxVehicles: 1 + rng.Intn(2), Windows: true, Waits: true, NonMetric: true,
 				TD: true, Limits: true, Tight: ci%2 == 0, ForceWindows: true, Precedence: ci%3 != 0, ForcePrec: ci%3 == 1, Trap: ci%3 == 2}
@@ -640,6 +686,10 @@ func runHistCase(o *Out, ci int, hc *histCase, nops int, distinct map[string]boo
 			return
 		}
 		o.Count("uc:" + uc.Level + ":" + uc.Kind)
+	}
+	var engC *engCtx
+	if uc == nil {
+		engC = newEngCtx(bt)
 	}
 	forbid := &forbidState{}
 	fc := ucForbid{st: forbid, temporal: hc.Seed%2 == 0}
@@ -918,6 +968,7 @@ func runHistCase(o *Out, ci int, hc *histCase, nops int, distinct map[string]boo
 			var e error
 			rec.reset()
 			lk := linksBeforeExecute(sol, mv)
+			eo := engC.beforeExecute(sol, mv)
 			if doPanic(opDesc, func() { ok, e = mv.Execute(ctx) }) {
 				return
 			}
@@ -926,6 +977,9 @@ func runHistCase(o *Out, ci int, hc *histCase, nops int, distinct map[string]boo
 				return
 			}
 			lk.afterExecute(o, sol, ok)
+			if !tainted {
+				eo.after(o, sol, ok)
+			}
 			collLine = execLine(mv, ok)
 			o.Count("stale-execute:" + fmt.Sprintf("ok=%v", ok))
 			if !ok {
@@ -990,6 +1044,7 @@ func runHistCase(o *Out, ci int, hc *histCase, nops int, distinct map[string]boo
 			var e error
 			rec.reset()
 			lk := linksBeforeExecute(sol, mv)
+			eo := engC.beforeExecute(sol, mv)
 			if doPanic(opDesc+".Execute", func() { ok, e = mv.Execute(ctx) }) {
 				return
 			}
@@ -998,6 +1053,9 @@ func runHistCase(o *Out, ci int, hc *histCase, nops int, distinct map[string]boo
 				return
 			}
 			lk.afterExecute(o, sol, ok)
+			if !tainted {
+				eo.after(o, sol, ok)
+			}
 			if exe {
 				collLine = execLine(mv, ok)
 			} else {
@@ -1080,7 +1138,7 @@ func runHistCase(o *Out, ci int, hc *histCase, nops int, distinct map[string]boo
 				// vehicle are compared with the models, not only the one that is executed — an early exit that is
 				// wrong only for a particular shape (an unchanged planned stop between two inserted stops, …) is
 				// reached by enumeration rather than by luck
-				if n := len(su.SolutionStops()); n >= 2 && n <= 3 && v.NumberOfStops() <= 6 {
+				if n := len(su.SolutionStops()); n >= 1 && n <= 3 && v.NumberOfStops() <= 6 {
 					srng := rand.New(rand.NewSource(hc.Seed + int64(step)*7919))
 					target := v.SolutionStops()
 					cs := combos(n, len(target)-1)
@@ -1109,6 +1167,8 @@ func runHistCase(o *Out, ci int, hc *histCase, nops int, distinct map[string]boo
 						}
 						estCorrespondence(o, rec, m2, v)
 						o.Count("est-sweep-placements")
+						tagN++
+						hypLine(o, fmt.Sprintf("c%d.%d.sweep(%s)", ci, tagN, role), m2)
 					}
 				}
 			}
@@ -1117,6 +1177,7 @@ func runHistCase(o *Out, ci int, hc *histCase, nops int, distinct map[string]boo
 			var e error
 			rec.reset()
 			lk := linksBeforeExecute(sol, mv)
+			eo := engC.beforeExecute(sol, mv)
 			if doPanic(opDesc+".Execute", func() { ok, e = mv.Execute(ctx) }) {
 				return
 			}
@@ -1125,6 +1186,9 @@ func runHistCase(o *Out, ci int, hc *histCase, nops int, distinct map[string]boo
 				return
 			}
 			lk.afterExecute(o, sol, ok)
+			if !tainted {
+				eo.after(o, sol, ok)
+			}
 			if exe {
 				collLine = execLine(mv, ok)
 			} else {
@@ -1187,6 +1251,7 @@ func runHistCase(o *Out, ci int, hc *histCase, nops int, distinct map[string]boo
 				tailUnit = sts[len(sts)-1].Next().IsLast()
 			}
 			lku := linksBeforeUnplan(sol, u)
+			eou := engC.beforeUnplan(sol, u)
 			if su, isStops := u.(nextroute.SolutionPlanStopsUnit); isStops && uc != nil && rng.Intn(3) == 0 && len(su.SolutionStops()) > 0 {
 				mine := map[int]bool{}
 				for _, st := range su.SolutionStops() {
@@ -1201,6 +1266,9 @@ func runHistCase(o *Out, ci int, hc *histCase, nops int, distinct map[string]boo
 			forbid.sig = ""
 			if e == nil {
 				lku.afterUnplan(o, sol, ok)
+				if !tainted {
+					eou.after(o, sol, ok)
+				}
 			}
 			if _, nested := u.(nextroute.SolutionPlanUnitsUnit); nested {
 				collLine = fmt.Sprintf("unplanUnits %d %s", cu(u.ModelPlanUnit().Index()), bits("unplan"))
@@ -1263,10 +1331,14 @@ func runHistCase(o *Out, ci int, hc *histCase, nops int, distinct map[string]boo
 				forbid.sig = routeSigWithout(v, func(st nextroute.SolutionStop) bool { return !st.IsFixed() })
 				o.Count("forbid:vehicle-unplan")
 			}
+			eov := engC.beforeVehicleUnplan(sol, v)
 			if doPanic(opDesc, func() { ok, e = v.Unplan() }) {
 				return
 			}
 			forbid.sig = ""
+			if e == nil && !tainted {
+				eov.after(o, sol, ok)
+			}
 			collLine = fmt.Sprintf("vehicleUnplan %s %s", csvI(vus), b01(ok))
 			if len(vus) == 0 {
 				collLine = "nop"
@@ -1361,6 +1433,7 @@ func runHistCase(o *Out, ci int, hc *histCase, nops int, distinct map[string]boo
 		default: // solution check
 			opDesc = "check"
 			verb := []string{"low", "medium", "high"}[rng.Intn(3)]
+			statesBefore := plannedStates(sol)
 			var out any
 			var e error
 			if doPanic(opDesc, func() {
@@ -1375,7 +1448,12 @@ func runHistCase(o *Out, ci int, hc *histCase, nops int, distinct map[string]boo
 			o.Count("check:" + verb)
 			removedSince = true
 			if after := snapOf(b, sol); !snapSame(after, before) {
-				violate("C18", "check-changed-solution", verb, diffSnap(before, after))
+				// which kinds of root units changed their planned state (the signature distinguishes the listed
+				// finding — a probed GROUP left half planned, E16 — from anything else the check might alter); judged
+				// even when the books were inconsistent before: the check must not alter the solution whatever its state
+				culprit := plannedStateDiff(statesBefore, plannedStates(sol))
+				o.Violate(Violation{Property: "C18", Clause: "check-changed-solution", Sig: "C18|check-changed-solution|" + culprit + "|" + changedParts(before, after) + "|" + verb,
+					Detail: diffSnap(before, after), Replay: hc})
 			}
 			if uc == nil {
 				checkTruthful(o, hc, sol, verb, violate)
